@@ -74,9 +74,24 @@ pub fn exact_min(z: &Mat, yc: &[f64], l1: f64, l2: f64) -> Optimum {
     let zt = oracle::transpose(z);
     let g = oracle::matmul(&zt, z);
     let c: Vec<f64> = zt.iter().map(|r| oracle::dot(r, yc)).collect();
-    let mut best = Optimum { f: objective(z, yc, &vec![0.0; p], l1, l2), v: vec![0.0; p], zeros: p };
+    // candidates are ranked by the objective in Gram form (cheap); the winner is then evaluated in
+    // residual form (accurate). Ranking errors are of relative size 1e-13, far below any tol.
+    let yy = sq_norm(yc);
+    let gram_form = |v: &[f64]| -> f64 {
+        let mut q = 0.0;
+        for i in 0..p {
+            if v[i] != 0.0 {
+                q += v[i] * (oracle::dot(&g[i], v) + l2 * v[i]) - 2.0 * c[i] * v[i] + l1 * v[i].abs();
+            }
+        }
+        yy + q
+    };
+    let mut best_rank = yy;
+    let mut best_v = vec![0.0; p];
+    let mut best_zeros = p;
     let total = 3usize.pow(p as u32);
     let mut s = vec![0i8; p];
+    let mut v = vec![0.0; p];
     for code in 1..total {
         let mut k = code;
         for sj in s.iter_mut() {
@@ -94,16 +109,18 @@ pub fn exact_min(z: &Mat, yc: &[f64], l1: f64, l2: f64) -> Optimum {
         if sol.iter().any(|t| !t.is_finite()) {
             continue;
         }
-        let mut v = vec![0.0; p];
+        v.iter_mut().for_each(|t| *t = 0.0);
         for (k, &j) in act.iter().enumerate() {
             v[j] = sol[k];
         }
-        let f = objective(z, yc, &v, l1, l2);
-        if f < best.f {
-            best = Optimum { f, v, zeros: p - act.len() };
+        let r = gram_form(&v);
+        if r < best_rank {
+            best_rank = r;
+            best_v.copy_from_slice(&v);
+            best_zeros = p - act.len();
         }
     }
-    best
+    Optimum { f: objective(z, yc, &best_v, l1, l2), v: best_v, zeros: best_zeros }
 }
 
 /// 2-norm condition number of the design (after centring nothing: the objective has no free
